@@ -114,6 +114,12 @@ check("C14", "exploration", "simkernel+realproc",
       "Trusted: vlib/simkernel.py; the two masters are not interleaved by an explorer (level therefore 'exploration', as announced in DESIGN.md's fallback), their concurrent execution is covered by the real histories; two known findings (new master dying inside the fork/bookkeeping window of reexec) are listed.",
       "DESIGN.md section 3, C14")
 
+check("C11", "model_checking", "simkernel+realproc",
+      "two-level assume/guarantee model checking in exact virtual time: (1) the real worker main loops (sync one/many listeners, gthread, gevent, eventlet) executed under a virtual clock for every healthy activity pattern, measuring the maximum heartbeat gap; (2) the real Arbiter in the simulated kernel against heartbeat sources with those gaps at every phase of a 50 ms grid, hung workers of three kinds, and timeout-changing reloads; (3) real processes per worker class (idle / blocked application / stopped process)",
+      "(1) 120 loop executions over timeouts {1,2,3,5,30}: idle, single, spaced and back-to-back requests of duration 0, timeout/2, timeout-0.1 - guarantee G <= timeout. (2) 307 (thorough ~600) master cells: no ABRT/KILL ever for a heartbeat source with the measured gap at any phase; a worker hung from T0 (blocked, stopped, ignoring ABRT) gets ABRT within [timeout, timeout+2 s], KILL one scan later when it ignores ABRT, is reaped and replaced while the others are untouched; after a HUP that changes the timeout nobody is killed. (3) 12 real cells confirm on the four real classes.",
+      "Trusted: virtual-time cost model (a blocking call costs its timeout, a loop iteration 1 ms), 50 ms phase grid, vlib/simkernel.py; gevent/eventlet loops run with a stubbed hub (sleep only).",
+      "DESIGN.md section 3, C11")
+
 ALL = ["C%02d" % i for i in range(1, 21)]
 for pid in ALL:
     if pid not in CHECKS:
